@@ -13,7 +13,13 @@ pub struct C17;
 
 pub fn gen_c17_case(g: &mut G) -> Value {
     let cfg = if g.chance(2, 3) { gs::Cfg::faithful() } else { gs::Cfg::wide() };
-    let doc = gs::document(g, &cfg);
+    let mut doc = gs::document(g, &cfg);
+    // fixed-length arrays around std's limit of 32 for Default (and serde)
+    if g.chance(1, 4) {
+        let n = *g.pick(&[31, 32, 33, 40]);
+        let item = g.pick(&[json!({"type": "integer"}), json!({"type": "string"}), json!({"type": "boolean"})]).clone();
+        doc["definitions"]["BigArrayHolder"] = json!({"type": "object", "properties": {"big": {"type": "array", "items": item, "minItems": n, "maxItems": n}}, "required": ["big"]});
+    }
     let mut settings = settings(g, &doc, true);
     // patches rename types: keep (the API must follow), replacements too
     if g.chance(1, 2) {
@@ -81,6 +87,9 @@ impl Property for C17 {
             let constrained_string_newtype = f.kind == "newtype"
                 && f.inner.as_ref().map(|(_, i)| i.replace(' ', "") == "::std::string::String").unwrap_or(false)
                 && !r.index.impls.iter().any(|i| i.self_ty == f.name && i.trait_ == "::std::convert::From<::std::string::String>");
+            // a claim about a type that mentions no generated item cannot be affected by
+            // compile errors elsewhere in the output
+            let independent = !r.index.items.keys().any(|n| f.ident.split(|c: char| !(c.is_alphanumeric() || c == '_')).any(|seg| seg == n));
             for (flag, helper, what) in [(f.has_from_str, "assert_from_str", "FromStr"), (f.has_display, "assert_display", "Display"), (f.has_default, "assert_default", "Default")] {
                 if flag && what == "Display" && constrained_string_newtype && case.extra.get("no_exclusions").is_none() {
                     *unit.counters.entry("excluded_kf017_display_claim".into()).or_default() += 1;
@@ -88,7 +97,7 @@ impl Property for C17 {
                 }
                 if flag {
                     drv.assert_lines.push(format!("crate::rt::{helper}::<{}>();", f.ident));
-                    asserts.push((f.ident.clone(), format!("has_impl({what})")));
+                    asserts.push((f.ident.clone(), format!("has_impl({what}){}", if independent { " [independent]" } else { "" })));
                 }
             }
             if let Some(b) = &f.builder {
@@ -216,7 +225,7 @@ impl Property for C17 {
             for d in diags.iter().filter(|d| d.file == "drv") {
                 match keys.iter().find(|(l, _)| *l == d.line).and_then(|(_, k)| k.strip_prefix("assert:")).and_then(|i| i.parse::<usize>().ok()).and_then(|i| asserts.get(i)) {
                     Some((ty, what)) => {
-                        if !gen_broken {
+                        if !gen_broken || what.contains("[independent]") {
                             j.violations.push(Violation::new(format!("api-claim-does-not-compile:{}", what.split('(').next().unwrap_or("").trim()), format!("{ty}: {what} -- {} {}", d.code, d.message)))
                         }
                     }
